@@ -438,6 +438,9 @@ def _decoding(case, policy):
 def execute(case, ctx):
     envn, W, B = case["env"], int(case["W"]), int(case["B"])
     key = _zoo(case)[0]
+    if "mvmoe" in key:
+        from ..policies import moe_watch
+        moe_watch(ctx)  # expert choices within float32 rounding are don't-care (vf.policies, MoE gates)
     f64 = bool(case["f64"])
     sb = bool(case["select_best"])
     cfg, mkw = resolve_setup(case, env_cfg(envn, case["n"], case["variant"], case.get("ct")))
